@@ -366,13 +366,13 @@ Qed.
 
 Lemma ex_tm_nonvacuous :
   exists ok s tr,
-    run_tm true 1 [[RAcq; RRel]; [RAcq]] [1;1;1;1;1;0;0;0;0;0;2;2;2;2;2;2;1;1] = (ok, s, tr)
+    run_tm true 1 [[RAcq; RRel]; [RAcq]] [1;1;1;1;1;1;0;0;0;0;0;0;2;2;2;2;2;2;1;1;1] = (ok, s, tr)
     /\ treach 1 [[RAcq; RRel]; [RAcq]] s /\ nextg s = 2
     /\ settled 0 s /\ settled 1 s
     /\ nS 0 s = 1 /\ nE 0 s = 1 /\ nL 0 s = 0      (* popped by stop(): one stop_thread *)
     /\ nS 1 s = 1 /\ nE 1 s = 0 /\ nL 1 s = 1.     (* registered after stop(): still serving *)
 Proof.
-  destruct (run_tm true 1 [[RAcq; RRel]; [RAcq]] [1;1;1;1;1;0;0;0;0;0;2;2;2;2;2;2;1;1])
+  destruct (run_tm true 1 [[RAcq; RRel]; [RAcq]] [1;1;1;1;1;1;0;0;0;0;0;0;2;2;2;2;2;2;1;1;1])
     as [[ok s] tr] eqn:E.
   exists ok, s, tr. split; [reflexivity|]. split; [eapply run_tm_reach; exact E|].
   vm_compute in E. injection E as <- <- <-. repeat split; vm_compute; reflexivity.
